@@ -209,7 +209,8 @@ def families(args):
     for kb, ki, ka in (((6, 7, 2), (2, 12, 1)) if args.tier == 'quick' else ((6, 7, 2), (2, 12, 1), (12, 12, 3), (0, 13, 13))):
         shapes.append(MapShape('merge%d-%d-%d/min1' % (kb, ki, ka), kb, ki, ka, 1, sym_has=False))
     fam_map = ppprop.Family('mapcore', shapes, None, ('origin',), custom_work=mapcore_work)
-    fam_sites = ppprop.Family('sites', ppfamily.site_programs(args.tier, args.seed), site_case, ('origin', 'tokens'),
+    com_sites = [p for p in ppfamily.comment_programs(args.tier, args.seed) if p.label in ('com/line', 'com/line/crlf', 'com/multi', 'com/multi/crlf', 'com/sole-sep')]
+    fam_sites = ppprop.Family('sites', ppfamily.site_programs(args.tier, args.seed) + com_sites, site_case, ('origin', 'tokens'),
                               want_origins=True, role_fn=site_role)
     import c10
     incs = [p for p in ppfamily.include_programs(args.tier, args.seed)
